@@ -156,6 +156,12 @@ PROPS["C18"] = dict(
         dict(id="C18.c", harness="C18_filestorage.cpp", entry="h_c18c_timestamp", ctors=False, clang_flags=["-fno-inline"],
              desc="read_timestamp <=> 8-byte timestamp readable and >= now (gc/load never remove a live session on this rule)",
              tiers=T(quick=dict(unwind=14, timeout=600, bounds="file length 0..12, arbitrary bytes, arbitrary clock"))),
+        dict(id="C18.d", harness="C18_large.cpp", entry="h_c18d_crc_feed", ctors=False, clang_flags=["-fno-inline"],
+             desc="crc32_calc::process_bytes over two arbitrary ranges of any length < 2^31 (zlib crc32 = chained recorder): every byte fed exactly once in order, state threaded through, checksum() = last state",
+             tiers=T(quick=dict(unwind=4, timeout=300, bounds="2 ranges, every length < 2^31 and offset; at most 3 zlib calls per range"))),
+        dict(id="C18.d2", harness="C18_large.cpp", entry="h_c18d_save_large", ctors=False, clang_flags=["-fno-inline"],
+             desc="save_to_file with a payload of any length < 2^31 (crc32/write = recorders, complete writes): 16-byte header {timeout, crc over exactly the payload, length} first, then exactly the payload",
+             tiers=T(quick=dict(unwind=18, timeout=300, bounds="every payload length < 2^31 (bytes not materialised), every timeout; at most 3 zlib calls / 3 writes per request"))),
     ],
 )
 
@@ -444,3 +450,10 @@ NOT_APPLICABLE = {
     "C08": "buddy allocator harness (typed arena) did not finish symbolic execution in 600 s for two operations (recursive page_alloc over pointer-linked free lists in one arena object); the LRU/limit logic lives in mem_cache, see C07",
     "C09": "real thread interleavings are not explorable with this technique (CBMC's concurrency support on IR-derived C++ with heap containers does not scale to two operations); a lock-discipline argument as used for C17 would need the mem_cache encoding that C07 lacks",
 }
+
+# experiments (not in MANIFEST: gen_manifest only takes C01..C20)
+PROPS["X01"] = dict(title="experiments", level="model_checking", trusted_base=COMMON_TB, assumptions=[], outside="", obligations=[
+    dict(id="X01.a", harness="C01_http_parser.cpp", entry="h_c01a_chunking", ctors=False, cbmc_defs=["VERIF_NO_CHK"],
+         desc="http parser chunking, heap check off",
+         tiers=T(quick=dict(split=[[1, 2, 3]], unwind=10, unwindset={"verif_memset.0": 100, "verif_memcpy.0": 100, "verif_memmove.0": 100, "verif_memmove.1": 100}, timeout=900, bounds="n 1..3"))),
+])
